@@ -79,6 +79,8 @@ type PathCtx struct {
 	randN, randRun int
 	pins        map[*Term]uint64
 	noteTexts   []string
+	watch       *watchState
+	curThread   int
 }
 
 type symKey struct {
